@@ -691,7 +691,11 @@ pub fn linearizable(initial: &Heap, events: &[Event], budget: u64) -> LinResult 
         if subs.iter().all(|s| *s == Sub::Done) {
             return Some(true);
         }
-        *states += 1;
+        // a state costs what hashing and copying the heap costs: with a list of a thousand elements
+        // in it, two million states would take hours (and the run would be taken for one that does
+        // not terminate) - the budget is spent in proportion, and a search that runs out of it
+        // gives no verdict (`lin_gave_up`), never a violation
+        *states += 1 + heap.lists.iter().map(|l| l.len() as u64).sum::<u64>() / 32;
         if *states > budget {
             return None;
         }
